@@ -107,6 +107,28 @@ def extract_constants(c):
     if len(re.findall(r"p_j\[index\]\.x\s*\+=\s*r->dt/2\.\*p_j\[index\]\.vx;", p2)) != 1 + K["vfix"]:
         c.broken.append("proof obligation: reb_integrator_whfast_part2: unexpected number of variational centre-of-mass drifts")
     c.cov["whfast_var_keep_variant"] = "centre-of-mass drift redone after the restore" if K["vfix"] else "as found (drift lost with keep_unsynchronized: C09:whfast-var-keep-com-drift-lost)"
+    # part1 of WHFast / SABA: after `from_inertial; recalculate_coordinates_this_timestep = 0;` does the source set
+    # is_synchronized = 1 (repaired, 35adc5c) or leave the flag alone (as found)?  (Config.p1fix / SabaConfig.p1fix)
+    for fam_, text_, ri_ in (("W", src, "ri_whfast"), ("S", saba, "ri_saba")):
+        mp1 = re.search(r"void reb_integrator_%s_part1\(.*?\n\}" % ("whfast" if fam_ == "W" else "saba"), text_, flags=re.S)
+        b1 = mp1.group(0) if mp1 else ""
+        sites = re.findall(r"reb_integrator_whfast_from_inertial\(r\);\s*ri_whfast->recalculate_coordinates_this_timestep\s*=\s*0;((?:\s*//[^\n]*\n)*)\s*([^\n]*)", b1)
+        if len(sites) != 1:
+            c.broken.append("proof obligation: part1 of %s: %d 'from_inertial; recalculate = 0' sites (expected 1)" % (ri_, len(sites)))
+            K["p1fix" + fam_] = 0
+            continue
+        nxt = sites[0][1].strip()
+        if re.fullmatch(r"%s->is_synchronized\s*=\s*1;" % ri_, nxt):
+            K["p1fix" + fam_] = 1
+        elif nxt == "}":
+            K["p1fix" + fam_] = 0
+        else:
+            K["p1fix" + fam_] = 0
+            c.broken.append("proof obligation: part1 of %s: the statement after 'from_inertial; recalculate = 0' (%r) has neither of the two modelled shapes" % (ri_, nxt))
+        if len(re.findall(r"is_synchronized\s*=\s*1", b1)) != K["p1fix" + fam_]:
+            c.broken.append("proof obligation: part1 of %s: unexpected number of assignments is_synchronized = 1" % ri_)
+    c.cov["part1_recalculate_variant"] = {k_: ("is_synchronized = 1 after from_inertial" if K["p1fix" + f_] else "as found (flag left alone: extra half drift with keep_unsynchronized + callbacks)")
+                                          for k_, f_ in (("whfast", "W"), ("saba", "S"))}
     # does reb_simulation_integrate_raw synchronise before it changes the sign of dt?
     rsrc = open(os.path.join(common.REPO, "src", "rebound.c")).read()
     m2 = re.search(r"if \(thread_info->tmax != r->t\)\{(.*?)\n    \}", rsrc, flags=re.S)
@@ -1109,7 +1131,7 @@ def replay(c, W, exe, ncases, family):
                      nvar=(cs["nvar"] if cs else rng.randint(1, 2)))
             no_testparticles(system)
             system["dims"].append("variational particles (1st order, non-zero)")
-            lines.append("V %d %d %d 1 0 0 %s" % (o["safe"], o["keep"], W.K["vfix"], " ".join(toks)))
+            lines.append("V %d %d %d %d 1 0 0 %s" % (o["safe"], o["keep"], W.K["vfix"], W.K["p1fixW"], " ".join(toks)))
             base = whfast_setup(o)
 
             def setup(s, base=base, nv=o["nvar"]):
@@ -1122,8 +1144,8 @@ def replay(c, W, exe, ncases, family):
             if cs:
                 o = dict(coord=cs["coord"], kernel=cs["kernel"], corrector=cs["corrector"], corrector2=cs["corrector2"],
                          safe=int(cs["mode"] == "safe"), keep=int(cs["mode"] == "keep"))
-            lines.append("W %d %d %d %d %d %d %d 1 0 0 %s" % (o["coord"], o["kernel"], o["corrector"], o["corrector2"],
-                                                              o["safe"], o["keep"], W.K["c2fixed"], " ".join(toks)))
+            lines.append("W %d %d %d %d %d %d %d %d 1 0 0 %s" % (o["coord"], o["kernel"], o["corrector"], o["corrector2"],
+                                                                 o["safe"], o["keep"], W.K["c2fixed"], W.K["p1fixW"], " ".join(toks)))
             setup = whfast_setup(o)
             key = (o["coord"], o["kernel"], o["corrector"], o["corrector2"], o["safe"], o["keep"])
         else:
@@ -1131,7 +1153,7 @@ def replay(c, W, exe, ncases, family):
             o = dict(type=(cs["type"] if cs else rng.choice(sorted(SABA_ROWS))), safe=int(mode == "safe"), keep=int(mode == "keep"))
             if cs is None and rng.chance(0.3):
                 no_testparticles(system)
-            lines.append("S %d %d %d %d 1 0 0 %s" % (o["type"], o["safe"], o["keep"], W.K["copyInside"], " ".join(toks)))
+            lines.append("S %d %d %d %d %d 1 0 0 %s" % (o["type"], o["safe"], o["keep"], W.K["copyInside"], W.K["p1fixS"], " ".join(toks)))
             setup = saba_setup(o)
             key = (o["type"], o["safe"], o["keep"])
         dims_of(system, "replay " + family)
@@ -2115,6 +2137,26 @@ def callback_search(c, W, cfgs):
             ca, cu = run_cb("safe"), run_cb("unsafe")
             sx = max(abs(v) for p in ca for v in p[:3])
             sv = max(abs(v) for p in ca for v in p[3:])
+            if has_keep and which in ("readonly", "post") and integ in ("whfast", "saba"):
+                # keep_unsynchronized=1 x callbacks: reb_simulation_step synchronises (flag stays 0), sets the recalculate
+                # flag, part1 recalculates while unsynchronised.  Read-only callbacks: must equal safe mode (theorem
+                # c09_whfast_keep_unsynchronized_with_callbacks_equals_safe_repaired; as found: half a drift too many per
+                # step).  Editing callbacks: the edit is discarded by the next synchronize (documented meaning of the flag:
+                # "the inertial coordinates generated are discarded") - recorded, not asserted.
+                ck = run_cb("keep")
+                ek = max(max(abs(a[k] - b[k]) / (sx if k < 3 else sv) for k in range(6)) for a, b in zip(ca, ck))
+                if which == "readonly":
+                    dim("keep_unsynchronized=1 x read-only callbacks vs safe mode")
+                    c.count(("callback-keep", label))
+                    worst["keep:" + fam] = max(worst.get("keep:" + fam, 0.0), ek)
+                    if not ek <= 1e-10:
+                        c.violation("callback:%s:readonly:keep" % fam,
+                                    "%s: keep_unsynchronized=1 with read-only pre/post callbacks + synchronize differs from safe mode by %.3g relative after %d steps"
+                                    % (label, ek, nsteps),
+                                    {"integrator": integ, "label": label, "system": system, "callback": which, "steps": nsteps, "relative_difference": ek})
+                else:
+                    rec = c.cov.setdefault("keep_unsynchronized_with_editing_callbacks (edits discarded by design, recorded only)", {})
+                    rec[fam] = max(rec.get(fam, 0.0), float("%.3g" % ek))
             err = max(max(abs(a[k] - b[k]) / (sx if k < 3 else sv) for k in range(6)) for a, b in zip(ca, cu))
             tol = 1e-10
             if integ == "eos":
@@ -2477,7 +2519,8 @@ REQUIRED_DIMS = [
     "user sets recalculate_r_crit_this_timestep mid-run (MERCURIUS)",
     "save / copy / pickle restore mid-run, continued", "archive restore mid-run (getSimulation snapshot/close/exact)",
     "explicit synchronize", "user edits of particles / flags between steps", "close encounters (MERCURIUS)",
-    "centre of mass offset and moving", "hyperbolic body", "N > 128 (allocation boundary)"]
+    "centre of mass offset and moving", "hyperbolic body", "N > 128 (allocation boundary)",
+    "keep_unsynchronized=1 x integrate call patterns vs safe mode", "keep_unsynchronized=1 x read-only callbacks vs safe mode"]
 
 
 # every public attribute of the integrator structs (extracted from rebound/integrators/*.py): where the op alphabet /
